@@ -69,6 +69,7 @@ class Profile:
         self.inject_first_p = 0.0
         self.mask_choices = [1, 2, 4, 8, 3, 6, 2, 2, 1]
         self.mbtns = [0, 1]
+        self.log_raw_p = 0.0           # probability that an input gets a logging identity modifier first
         for k, v in kw.items():
             if not hasattr(self, k):
                 raise KeyError(k)
@@ -257,6 +258,10 @@ class AppGen:
                         lines.append(f"in {spec}")
                         if route in (4, 5):
                             continue
+                        if r.random() < p.log_raw_p:
+                            # an identity modifier that logs what the binding reads (the `raw` fact of tools/facts.py)
+                            rawdim = {"key": 0, "mbtn": 0, "padbtn": 0, "padaxis": 1, "motion": 2, "wheel": 2}[spec.split()[0]]
+                            lines.append(f"imod {self.fresh_id()} sadd {rawdim} 0 0 0")
                         for _ in range(self.ri(p.n_imods)):
                             lines.append(f"imod {self.fresh_id()} {self.mod_spec(acts)}")
                         for _ in range(self.ri(p.n_iconds)):
